@@ -2,6 +2,7 @@ import Bardolph.Driver.TimePattern
 import Bardolph.Driver.Vm
 import Bardolph.Driver.Ast
 import Bardolph.Driver.Web
+import Bardolph.Driver.Output
 /-! All driver handlers; `dispatch` routes one request line. -/
 namespace Bardolph.Driver
 
@@ -9,7 +10,8 @@ def handlers : List (String → List String → Option String) := [
   TP.handle,
   VmD.handle,
   AstD.handle,
-  Web.handle
+  Web.handle,
+  Out.handle
 ]
 
 def dispatch (line : String) : String :=
